@@ -72,3 +72,22 @@ def tie_orders(n, which='idrev'):
     if which == 'idrev':
         return [ident, tuple(reversed(ident))] if n > 1 else [ident]
     return list(itertools.permutations(ident))
+
+
+def QW(n, mults=(1, 2)):
+    """equal-rank profiles with n candidates: two distinct strict rankings of R(n,2) plus one weak ranking drawn from
+    {a=b, a=b>c, c>a=b}, each with a multiplier from mults (ballots >= n); reaches 'every candidate of an equal-rank
+    ballot excluded while the count goes on', which needs four candidates"""
+    R = rankings(n, 2)
+    weak = []
+    for a, b in itertools.combinations(range(1, n + 1), 2):
+        weak.append(((a, b),))
+        for c in range(1, n + 1):
+            if c not in (a, b):
+                weak.append(((a, b), (c,)))
+                weak.append(((c,), (a, b)))
+    for i, j in itertools.combinations(range(len(R)), 2):
+        for w in weak:
+            for ms in itertools.product(mults, repeat=3):
+                if sum(ms) >= n:
+                    yield ((ms[0], R[i]), (ms[1], R[j]), (ms[2], w))
